@@ -12,6 +12,7 @@ import (
 	"errors"
 	"fmt"
 	"io"
+	"strings"
 	"time"
 
 	"github.com/modelcontextprotocol/go-sdk/internal/verifharness/vh"
@@ -28,12 +29,18 @@ type c01IOSpec struct {
 	CallAt         int    `json:"call_ms"`
 	EOFAt          int    `json:"eof_ms"`
 	Answered       int    `json:"answered"` // calls made (and answered) before the pause
+	// Decoys: before each genuine answer the peer writes responses whose id is NEAR the call's id but not equal to it
+	// (the number with a fraction, the number as a string): they answer no call of this session.
+	Decoys bool `json:"decoys,omitempty"`
 }
 
 func genC01IO(r *vh.Rand) c01IOSpec {
 	s := c01IOSpec{Side: "io", ReaderCloseErr: r.Bool(), WriterCloseErr: r.Chance(1, 4), Logged: r.Chance(1, 3), PauseAt: r.Range(1, 4), Answered: r.Intn(3)}
 	s.CallAt = s.PauseAt + r.Intn(3)
 	s.EOFAt = s.CallAt + r.Range(1, 5)
+	if r.Bool() {
+		s.Decoys, s.Answered = true, max(1, s.Answered)
+	}
 	return s
 }
 
@@ -95,6 +102,11 @@ func runC01IO(c *vh.Case, spec c01IOSpec) {
 			case "initialize":
 				fmt.Fprintf(sw, `{"jsonrpc":"2.0","id":%s,"result":%s}`+"\n", m.ID, vhm.InitializeResultJSON("2025-06-18"))
 			case "tools/call":
+				if spec.Decoys && len(m.ID) > 0 && m.ID[0] != '"' {
+					for _, near := range []string{string(m.ID) + ".7", string(m.ID) + ".25e0", `"` + string(m.ID) + `"`} {
+						fmt.Fprintf(sw, `{"jsonrpc":"2.0","id":%s,"result":{"content":[{"type":"text","text":"decoy-for-%s"}]}}`+"\n", near, strings.Trim(near, `"`))
+					}
+				}
 				fmt.Fprintf(sw, `{"jsonrpc":"2.0","id":%s,"result":{"content":[{"type":"text","text":"nonce-%d"}]}}`+"\n", m.ID, nonceOfParams(m.Params))
 			default:
 				fmt.Fprintf(sw, `{"jsonrpc":"2.0","id":%s,"result":{}}`+"\n", m.ID)
